@@ -1,6 +1,6 @@
 """C13 -- .g2o export followed by import is lossless (writer o reader = id on the text model)."""
 from ..poly import Poly
-from ..interp import ga, sa, Arr, Pose, Obj, ClassRef, sym_pose, PathRaise
+from ..interp import ga, gp, sa, Arr, Pose, Obj, ClassRef, sym_pose, PathRaise
 from ..algebra import run_obligation as _run_obligation, run_tasks, record, ObFail, CDIM
 from .c18 import distinct_names_hook
 
@@ -71,7 +71,7 @@ def landmark_roundtrip(pcls):
             line = it.call_method(e, "to_g2o", [])
         except PathRaise as ex:
             # content the format cannot express is refused: acceptable only if the offset really is not expressible
-            if pcls == "PoseSE2" and "NotImplementedError" in ex.exc:
+            if pcls == "PoseSE2" and "NotImplementedError" in it.exc_ancestors(ex.exc.split("(")[0]):
                 if all(it.known_zero(c) for c in offset.data):
                     raise ObFail("export of an SE(2) landmark edge with the identity offset is refused")
                 return dict(refused="non-identity offset")
@@ -135,7 +135,7 @@ def graph_roundtrip(cycles, se2_param_id=None):
             path = "cycle%d.g2o" % c
             it.call_method(cur, "to_g2o", [path])
             cur = it.call_classmethod(ClassRef("Graph"), "from_g2o", [path])
-        v2, e2 = ga(cur, "_vertices", None), ga(cur, "_edges", None)
+        v2, e2 = gp(cur, "_vertices"), gp(cur, "_edges")
         if not isinstance(v2, list) or len(v2) != len(vs):
             raise ObFail("%d vertices exported, %s read back" % (len(vs), len(v2) if isinstance(v2, list) else v2))
         if not isinstance(e2, list) or len(e2) != len(edges):
@@ -145,7 +145,7 @@ def graph_roundtrip(cycles, se2_param_id=None):
         for k, (a, b) in enumerate(zip(e2, edges)):
             same_edge(it, a, b, "edge #%d of the graph after %d export/import cycle(s)" % (k, cycles))
         no_int_through_float(it)
-        pr = ga(cur, "_g2o_params", None)
+        pr = gp(cur, "_g2o_params")
         if not isinstance(pr, dict) or len(pr) != 2:
             raise ObFail("offset parameters are not all read back (%r)" % (pr,))
         for p in (p2, p3):
@@ -178,7 +178,7 @@ def graph_without_parameter_table():
             cur = it.call_classmethod(ClassRef("Graph"), "from_g2o", ["m.g2o"])
         except PathRaise as ex:
             return dict(refused_on="import", exc=ex.exc)
-        e2 = ga(cur, "_edges", None)
+        e2 = gp(cur, "_edges")
         if not isinstance(e2, list) or len(e2) != len(edges):
             raise ObFail("a graph whose landmark edges refer to an offset parameter missing from its table is exported and re-imported "
                          "without error, but %s of its %d edges come back" % (len(e2) if isinstance(e2, list) else e2, len(edges)))
